@@ -40,14 +40,15 @@ func dcat(parts ...interface{}) dp {
 }
 
 type tsgen struct {
-	r     *Rng
-	js    *JSGen
-	tg    *tgen
-	tsx   bool
-	kinds map[string]int
-	n     int
-	esm   bool
-	nest  int
+	r       *Rng
+	js      *JSGen
+	tg      *tgen
+	tsx     bool
+	kinds   map[string]int
+	n       int
+	esm     bool
+	nest    int
+	noAsync bool // programs that are executed: a rejected promise of a generated async arrow would end the node process
 }
 
 func (g *tsgen) cnt(k string) { g.kinds[k]++ }
@@ -353,7 +354,7 @@ func (g *tsgen) arrow(d int) dp {
 		return g.operandParen(d)
 	}
 	async := ""
-	if r.Chance(25) {
+	if !g.noAsync && r.Chance(25) {
 		async = "async "
 	}
 	switch r.Intn(6) {
